@@ -13,8 +13,8 @@ import (
 // ---- the script family: straight-line programs over globals ----
 
 type stmt struct {
-	K   string // def asg sel fail hid
-	N   int    // hid: shape of the block
+	K   string // def asg sel fail hid ext
+	N   int    // hid: shape of the block; ext: shape of the expression (extShapes)
 	Dst string
 	Var string // right-hand side: a global …
 	V   *TV    // … or a literal
@@ -104,6 +104,8 @@ func srcText(src []stmt) string {
 			sb.WriteString("1 + \"s\"\n")
 		case "hid":
 			sb.WriteString(hiddenShapes[s.N%len(hiddenShapes)] + "\n")
+		case "ext":
+			sb.WriteString(s.Dst + " := " + strings.ReplaceAll(extShapes[s.N], "V", s.Var) + "\n")
 		}
 	}
 	return sb.String()
@@ -194,6 +196,7 @@ func showVars(names []string, val func(string) string) string {
 type realState struct {
 	scripts  []*tengo.Script
 	compiled []*tengo.Compiled
+	read     []*tengo.Variable // the variables handed out by the last Get / GetAll
 }
 
 func between(s, a, b string) (string, bool) {
@@ -226,6 +229,7 @@ func (st *realState) do(o op) (out string) {
 			out = "(panic " + lib.HexS(fmt.Sprint(p)) + ")"
 		}
 	}()
+	st.read = nil
 	switch o.K {
 	case "new":
 		st.scripts = append(st.scripts, tengo.NewScript([]byte(srcText(o.Src))))
@@ -284,6 +288,7 @@ func (st *realState) do(o op) (out string) {
 		if v.Name() != o.Name {
 			return "(val-with-wrong-name " + lib.HexS(v.Name()) + ")"
 		}
+		st.read = []*tengo.Variable{v}
 		return "(val " + tvOf(v.Object()).sexp() + ")"
 	case "getall":
 		m := map[string]string{}
@@ -294,6 +299,7 @@ func (st *realState) do(o op) (out string) {
 			}
 			m[v.Name()] = tvOf(v.Object()).sexp()
 			names = append(names, v.Name())
+			st.read = append(st.read, v)
 		}
 		return showVars(names, func(n string) string { return m[n] })
 	case "isdef":
@@ -355,7 +361,7 @@ func (st *refState) do(o op) string {
 				continue // block-scoped variables are no names of the Compiled
 			}
 			_, known := env[t.Dst]
-			if t.K == "def" && known {
+			if (t.K == "def" || t.K == "ext") && known {
 				return "(err (redeclared " + lib.HexS(t.Dst) + "))"
 			}
 			if (t.K == "asg" || t.K == "sel") && !known {
@@ -364,7 +370,7 @@ func (st *refState) do(o op) string {
 			if _, ok := env[t.Var]; t.Var != "" && !ok {
 				return "(err (unresolved " + lib.HexS(t.Var) + "))"
 			}
-			if t.K == "def" {
+			if t.K == "def" || t.K == "ext" {
 				env[t.Dst] = nil
 			}
 		}
@@ -417,6 +423,8 @@ func (st *refState) do(o op) string {
 					n.Keys, n.Kids = append(n.Keys, t.Key), append(n.Kids, t.V)
 				}
 				c.env[t.Dst] = n
+			case "ext":
+				c.env[t.Dst] = extEval(t.N, c.env[t.Var])
 			case "fail":
 				return "(err runtime)"
 			}
@@ -503,6 +511,19 @@ func runHistory(stream string, ops []op, maxStr, maxBytes int, in apiInput, askM
 		// the specification first: it reads o.G before the real code can touch it
 		refs[i] = ref.do(o)
 		reals[i] = rs.do(o)
+		if reals[i] == refs[i] && !violated {
+			// the object read is the last value; every typed reading of it must be that value's too
+			for _, v := range rs.read {
+				if what, got, want, bad := badReading(v); bad {
+					in.Step = i
+					res.Violate(lib.Violation{Signature: "variable-" + strings.ToLower(what) + "-of-read-variable-not-last-value", Stream: stream, Input: in,
+						Observed: fmt.Sprintf("call %d %s: %s.%s() = %s", i, o.human(), v.Name(), what, clip(got, 300)),
+						Expected: clip(want, 300), Oracle: "the object read is " + clip(tvOf(v.Object()).sexp(), 200) + " (= the last value); Value() is its documented Go value and the typed accessors follow the coercion table of docs/runtime-types.md"})
+					violated = true
+					break
+				}
+			}
+		}
 		if o.K == "clone" || o.K == "set" || (o.K == "run" && refs[i] != "ok") {
 			nontrivial = true
 		}
@@ -573,7 +594,22 @@ func genAPIValue(r *lib.RNG, maxStr, maxBytes int) interface{} {
 }
 
 func genHistory(r *lib.RNG, maxStr, maxBytes int) []op {
+	return genHistoryWith(r, maxStr, maxBytes, false)
+}
+
+// boolMode: scripts mostly from boolFamily, values mostly booleans (top level and nested), more clones.
+func genHistoryWith(r *lib.RNG, maxStr, maxBytes int, boolMode bool) []op {
 	n := 4 + r.Intn(27)
+	value := func() interface{} {
+		if boolMode {
+			return genBoolValue(r, maxStr, maxBytes)
+		}
+		return genAPIValue(r, maxStr, maxBytes)
+	}
+	weights := []int{6, 1, 4, 5, 5, 5, 2, 3, 2}
+	if boolMode {
+		weights = []int{6, 1, 4, 4, 5, 4, 3, 1, 5}
+	}
 	var ops []op
 	type sc struct {
 		src      []stmt
@@ -593,17 +629,20 @@ func genHistory(r *lib.RNG, maxStr, maxBytes int) []op {
 	for len(ops) < n {
 		if len(scripts) == 0 || (len(scripts) < 3 && r.Chance(1, 10)) {
 			src := family[r.Intn(len(family))]
+			if boolMode && r.Chance(3, 4) {
+				src = boolFamily[r.Intn(len(boolFamily))]
+			}
 			scripts = append(scripts, &sc{src: src})
 			push(op{K: "new", Src: src})
 			continue
 		}
-		k := r.Weighted([]int{6, 1, 4, 5, 5, 5, 2, 3, 2})
+		k := r.Weighted(weights)
 		if ncompiled == 0 && k >= 3 {
 			k = r.Weighted([]int{3, 1, 3})
 		}
 		switch k {
 		case 0:
-			push(op{K: "add", H: r.Intn(len(scripts)), Name: lib.Pick(r, names3), G: genAPIValue(r, maxStr, maxBytes)})
+			push(op{K: "add", H: r.Intn(len(scripts)), Name: lib.Pick(r, names3), G: value()})
 		case 1:
 			push(op{K: "remove", H: r.Intn(len(scripts)), Name: lib.Pick(r, names3)})
 		case 2:
@@ -616,7 +655,7 @@ func genHistory(r *lib.RNG, maxStr, maxBytes int) []op {
 			scripts[h].compiles++
 			push(op{K: "compile", H: h})
 		case 3:
-			push(op{K: "set", H: r.Intn(ncompiled), Name: lib.Pick(r, readNames), G: genAPIValue(r, maxStr, maxBytes)})
+			push(op{K: "set", H: r.Intn(ncompiled), Name: lib.Pick(r, readNames), G: value()})
 		case 4:
 			push(op{K: "run", H: r.Intn(ncompiled), Ctx: r.Bool()})
 		case 5:
